@@ -710,6 +710,9 @@ def expand_additional_doses(model: Model, flag: bool = False):
     )
     df[idv] = df['_TIMES'].astype(np.float64)
     df.drop(['_TIMES', '_RESETGROUP'], axis=1, inplace=True)
+    # The row-wise apply converts all columns to a common type
+    dtypes = {col: dtype for col, dtype in model.dataset.dtypes.items() if col != idv}
+    df = df.astype(dtypes)
     if flag:
         df.rename(columns={'_EXPANDED': 'EXPANDED'}, inplace=True)
     else:
